@@ -45,7 +45,7 @@ func (sh shape) forEach(mutex string, visit func(idx int, s script) bool) int {
 
 func runShape(t *testing.T, sh shape) {
 	shard, shards := stats.Shard()
-	for _, mutex := range []string{"starving", "dag"} {
+	for _, mutex := range []string{"starving", "starving_zero", "dag"} {
 		check := "exhaustive_" + sh.name
 		stats.Rule(check, fmt.Sprintf("every script of %d goroutines x %d lock/unlock pair(s) each on one entity x every {read,write} assignment x every arrival order (multiset permutations), on StarvingMutex and on DAGMutex, executed under the schedule controller (stride %d); non-trivial = an operation was observed outstanding when the next one was issued and was granted later, or >=2 operations were queued on the entity; distinct by (mutex, programs, arrival order)", sh.goroutines, sh.pairs, sh.sampleStride))
 		n := sh.forEach(mutex, func(idx int, s script) bool {
